@@ -118,6 +118,14 @@ def scenarios(tier, rng):
                 for e in (1 << 63, (1 << 64) - 1, 1 << 64):
                     if e <= mx:
                         P(bits, b, e)
+            # exponents of EVERY bit length up to a limb and a bit (2^k - 1, 2^k, 2^k + 1): whatever size class a shortcut keys on
+            kk = list(range(1, 67)) + [127, 128, 129]
+            if quick:
+                kk = rng.sample(kk, 5) + [32, 64]
+            for k in kk:
+                for e in ((1 << k) - 1, 1 << k, (1 << k) + 1):
+                    if 0 < e <= mx:
+                        P(bits, rng.choice([2, 3, mx, (1 << (bits // 2)) | 1]), e)
         if bits <= (128 if quick else 320):
             for _ in range(3 if quick else 10):
                 P(bits, rand_value(rng, bits) | 1, rand_value(rng, bits))     # odd base, full-width exponent
@@ -129,7 +137,8 @@ def scenarios(tier, rng):
         for v, b, k in pp:
             Lg(bits, v, b)
         for v in vals[:: max(1, len(vals) // (12 if quick else 60))] + edges[:6]:
-            for b in (0, 1, 2, 3, 10, 16, mx, min(v, mx), min(v + 1, mx), max(v - 1, 0), (1 << 32) & mx, rng.getrandbits(min(bits, 40)) + 2):
+            for b in (0, 1, 2, 3, 10, 16, mx, min(v, mx), min(v + 1, mx), max(v - 1, 0), (1 << 32) & mx, rng.getrandbits(min(bits, 40)) + 2,
+                      ((1 << rng.choice([8, 16, 31, 32, 33, 63, 64, 65])) + rng.choice([-1, 0, 1])) & mx):
                 if b <= mx:
                     Lg(bits, v, b)
         for v in set(vals + edges + [p[0] for p in pp if p[1] in (2, 10)]):
